@@ -31,7 +31,8 @@ impl SN for f64 {
         p.raw()
     }
     fn mk(r: usize) -> f64 {
-        [-2.5, -0.0, 0.75, 3.0, 3.5, 1e9, 2e9][r]
+        // an infinity is an ordinary (non-missing) value
+        [-2.5, -0.0, 0.75, 3.0, 3.5, f64::INFINITY, 2e9][r]
     }
     fn missing() -> f64 {
         f64::NAN
